@@ -3,7 +3,7 @@ From EDS Require Import Model.Objects Model.PodSpec Model.Default Model.ErsRecon
 
 (** Function-mode cases: the real Default / IsDefaulted / Validate on a spec. *)
 Inductive case :=
-| W (c : World.case)
+| W (accepted : bool) (c : World.case)   (* accepted = the implementation's own IsDefaulted && Validate = nil on the parent spec *)
 | Dflt (mode : vmode) (s : strategy) (name_set : bool)
        (obs_defaulted : strategy) (obs_name_set : bool)       (* Default(s) *)
        (obs_twice : strategy)                                  (* Default(Default(s)) *)
@@ -28,14 +28,20 @@ Definition pod_shape_ok (p : pod) : bool :=
 
 Definition chk (c : case) : list N :=
   match c with
-  | W (CErs sn obs) =>
+  | W accepted (CErs sn obs) =>
       code_if (step_ok_ers sn obs) 1 ++
-      (* no accepted (defaulted, validated) spec crashes the replica-set sync *)
+      (* no spec the implementation accepts (recognises as defaulted, validates) crashes the replica-set sync *)
       code_if (negb (ob_panic obs) || negb (forallb pod_shape_ok (sn_pods sn)) ||
                match sn_eds sn with
-               | Some e => negb (is_defaulted e) || match validate (e_strategy e) with Ok _ => false | _ => true end
-               | None => false end) 15
-  | W (CEds sn obs) => code_if (step_ok_eds sn obs) 1 ++ code_if (negb (eo_panic obs)) 16
+               | Some e => negb accepted
+               | None => false end) 15 ++
+      (* ... and what the implementation accepts is what the model calls defaulted and valid (the fields the
+         reconcilers dereference are all set) *)
+      code_if (negb accepted ||
+               match sn_eds sn with
+               | Some e => is_defaulted e && match validate (e_strategy e) with Ok _ => true | _ => false end
+               | None => true end) 17
+  | W _ (CEds sn obs) => code_if (step_ok_eds sn obs) 1 ++ code_if (negb (eo_panic obs)) 16
   | Dflt mode s name_set od on ot b4 after v panic =>
       let e := eds_of s name_set in
       let d := default_eds mode e in
@@ -46,6 +52,9 @@ Definition chk (c : case) : list N :=
       code_if (negb panic) 10 ++
       code_if (strategy_eqb ot od) 11 ++                        (* idempotent *)
       code_if (vmode_eqb mode VUnset || after) 12 ++            (* recognised as defaulted *)
+      (* defaulting fills every field the reconcilers dereference: the model's list of them, on the implementation's output *)
+      code_if (vmode_eqb mode VUnset || panic || is_defaulted (MkEds 1%N 1%N (MkAnnots AAbsent AAbsent AAbsent None AAbsent None None)
+                                                                dummy_tmpl 1%N on None od dummy_status)) 14 ++
       code_if (negb (N.eqb v 99)) 13                            (* validation does not crash *)
   end.
 Definition run (cs : list case) : list (N * N) := run_cases chk 0%N cs.
